@@ -162,10 +162,17 @@ Example C11_example :
   let s := pl_exec ex_cfg ex_sched in
   forallb (fun t => pl_thread_finished (ps_thr s t)) (seq 0 8) = true /\
   ps_thr s 3%nat = TT TFin /\ ps_crashed s = false /\ ps_req s = 6 /\
-  (forall t1 t2, (t1 < 8)%nat -> (t2 < 8)%nat -> pl_req_of ex_cfg t1 = Some RTeardown -> pl_req_of ex_cfg t2 = Some RTeardown -> t1 = t2) /\
   pl_view s 0%nat = VDelivered 2 /\ pl_view s 1%nat = VClosed /\ pl_view s 4%nat = VClosed /\
   ps_user s 2%nat = UBridged 0 /\ length (ps_log s) = 1%nat.
 Proof. vm_compute. repeat split; reflexivity. Qed.
+
+Example C11_example_one_teardown : one_teardown ex_cfg.
+Proof.
+  assert (K : forall t, pl_req_of ex_cfg t = Some RTeardown -> t = 3%nat).
+  { intros t H. unfold pl_req_of, ex_cfg in H. simpl in H.
+    do 5 (destruct t as [|t]; simpl in H; try discriminate; auto). destruct t; discriminate. }
+  intros t1 t2 H1 H2. rewrite (K _ H1), (K _ H2). reflexivity.
+Qed.
 
 (* the late arrival of the example meets the hypotheses of C11_late_workconn_closed_not_parked *)
 Example C11_example_late :
